@@ -438,7 +438,7 @@ class Gen:
             eff = sz["size"] - (1 if sz["null"] else 0)
             return ("assigns", v, self.lit_bytes(r.randint(0, max(0, min(eff, 3)))) if eff > 0 else b"")
         if k == "delete":
-            return ("delete", r.choice(strs))
+            return ("delete", r.choice(strs))      # (an `s = "";` assignment becomes a delete at -O2)
         if k == "appc":
             return ("appc", r.choice(strs), self.expr(allow_last=after_match))
         return ("hook", r.choice(self.hooks))
